@@ -6,6 +6,7 @@ import (
 	"context"
 	"encoding/binary"
 	"fmt"
+	"sort"
 
 	"verifharness/kit"
 
@@ -229,4 +230,28 @@ func (r *rig) rawEvent(wlog bool, id, off uint64) ([]byte, bool, error) {
 	var data []byte
 	ok, err := r.raw.Get(pk, cc, &data)
 	return data, ok, err
+}
+
+// kindMasks: QName id -> system-field mask of the type's kind (typeKindSysFieldsMask: what a
+// codec-0 row has instead of a stored mask), for every type of the application with a non-zero mask
+func (r *rig) kindMasks() (string, error) {
+	var items []string
+	for _, t := range r.app.AppDef().Types() {
+		m := 0
+		for bit, f := range []string{appdef.SystemField_ID, appdef.SystemField_ParentID, appdef.SystemField_Container, appdef.SystemField_IsActive} {
+			if ok, _ := t.Kind().HasSystemField(f); ok {
+				m |= 1 << bit
+			}
+		}
+		if m == 0 {
+			continue
+		}
+		id, err := r.app.QNameID(t.QName())
+		if err != nil {
+			continue // not a type with a QName id (no rows of it can be stored)
+		}
+		items = append(items, fmt.Sprintf("(%d, %d)", id, m))
+	}
+	sort.Strings(items)
+	return kit.List(items), nil
 }
